@@ -260,6 +260,15 @@ REJECTS = [
     ("unknown-axis", ["-m", "mae", "-x", "Time "]),
     ("unknown-aggregator", ["-m", "mae", "-agg", "average"]),
     ("unknown-aggregator", ["-m", "mae", "-Tagg", "avg", "-T", "3"]),
+    # ... whichever kind of output reads the aggregator (the diagrams that aggregate take it from the output object)
+    ("unknown-aggregator", ["-m", "obsfcst", "-agg", "average"]),
+    ("unknown-aggregator", ["-m", "scatter", "-x", "leadtime", "-agg", "nosuch"]),
+    ("unknown-aggregator", ["-m", "qq", "-x", "location", "-agg", "avg"]),
+    ("unknown-aggregator", ["-m", "obs", "-agg", "meen"]),
+    # the documented names are the listed functions and a number between 0 and 1: the class names of the implementation are not among them
+    ("unknown-aggregator", ["-m", "mae", "-agg", "quantile"]),
+    ("unknown-aggregator", ["-m", "mae", "-agg", "aggregator"]),
+    ("unknown-aggregator", ["-m", "mae", "-T", "2", "-Tagg", "quantile"]),
     ("range-arity", ["-m", "mae", "-latrange", "10"]),
     ("range-arity", ["-m", "mae", "-lonrange", "1,2,3"]),
     ("range-arity", ["-m", "mae", "-elevrange", "5"]),
@@ -766,6 +775,36 @@ def check_climboth(case, ctx):
                  % (" ".join(os.path.basename(a) if os.sep in a else a for a in argv), "\n".join(r.lines()[:4]), "\n".join(ra.lines()[:4]), "\n".join(rb.lines()[:4])))
 
 
+# ---- -agg / -acc on the obsfcst table (the diagrams that aggregate read the option from the output object) ------------
+class _Rekey(object):
+    """Forwards to the campaign context, reporting under this property's keys."""
+    def __init__(self, ctx):
+        self.__dict__["_ctx"] = ctx
+
+    def __getattr__(self, name):
+        return getattr(self._ctx, name)
+
+    def __setattr__(self, name, value):
+        setattr(self._ctx, name, value)
+
+    def fail(self, key, case, msg):
+        self._ctx.fail(key.replace("C12/obsfcst/", "C13/agg-acc/obsfcst/"), case, msg)
+
+
+def aggacc_strategy(tier):
+    from . import c12
+    return c12.obsfcst_strategy(tier).filter(lambda c: c.get("agg") or c.get("acc"))
+
+
+def check_aggacc(case, ctx):
+    """-agg and -acc do what the help says on the obsfcst table too: every column is the -agg statistic of the slice's values
+    (the mean without -agg), accumulated along the axis with -acc."""
+    from . import c12
+    if "with_q" not in case:
+        return check_cmd(case, ctx)
+    return c12.check_obsfcst(case, _Rekey(ctx))
+
+
 def campaigns(tier):
     return [
         Enum("vector-grid", vector_items, check_vector, "24x24 start/end values x 10 steps in blocks of 200, three spellings each"),
@@ -775,4 +814,5 @@ def campaigns(tier):
         Hyp("vector-fuzz", fuzz_strategy, check_fuzz, quick=8000, thorough=400000, budget_quick=30, budget_thorough=600),
         Hyp("clim-both", climboth_strategy, check_climboth, quick=240, thorough=6000, budget_quick=30, budget_thorough=600),
         Hyp("commands", cmd_strategy, check_cmd, quick=2400, thorough=40000, budget_quick=60, budget_thorough=1800),
+        Hyp("agg-acc-obsfcst", aggacc_strategy, check_aggacc, quick=240, thorough=6000, budget_quick=30, budget_thorough=600),
     ]
